@@ -341,6 +341,24 @@ pub fn run(c: &mut Ctx) {
             strs.push(s);
         }
     }
+    // every name (short and long, in lower and upper case) with every single byte replaced by every
+    // ASCII byte: whatever bit trick a reader uses to fold the case must not let another byte through
+    for name in long_wd.iter().chain(long_mo.iter()) {
+        for full in [true, false] {
+            let base: Vec<u8> = if full { name.as_bytes().to_vec() } else { name.as_bytes()[..3].to_vec() };
+            for upper in [false, true] {
+                let b0: Vec<u8> = if upper { base.to_ascii_uppercase() } else { base.clone() };
+                for k in 0..b0.len() {
+                    for v in 0u8..128 {
+                        let mut b = b0.clone();
+                        b[k] = v;
+                        strs.push(String::from_utf8(b).unwrap());
+                    }
+                }
+            }
+        }
+    }
+    c.count_n("str:single-byte-substitutions", 0);
     strs.sort();
     strs.dedup();
     let mut sampled = 0;
